@@ -895,7 +895,20 @@ func (e *Engine) evalSpecCall(env *specEnv, n *ast.CallExpr) specVal {
 		if env.entryEnv == nil {
 			e.specFail(n, "entry() outside a loop invariant")
 		}
-		return e.evalSpec(env.entryEnv, n.Args[0])
+		// variables bound by enclosing quantifiers are visible inside entry(...)
+		sub := *env.entryEnv
+		sub.vars = map[string]specVal{}
+		for k, v := range env.vars {
+			if strings.HasPrefix(vKey(v), "bv.") {
+				sub.vars[k] = v
+			}
+		}
+		for k, v := range env.entryEnv.vars {
+			if _, bound := sub.vars[k]; !bound {
+				sub.vars[k] = v
+			}
+		}
+		return e.evalSpec(&sub, n.Args[0])
 	case "implies":
 		a := e.evalSpec(env, n.Args[0])
 		b := e.evalSpec(env, n.Args[1])
@@ -1540,4 +1553,12 @@ func (e *Engine) evalTraceSpec(env *specEnv, name string, n *ast.CallExpr) specV
 	}
 	e.specFail(n, "unknown trace function")
 	return specVal{}
+}
+
+// vKey: the name of a spec variable's first slot when it is a symbol (bound variables are called bv.*).
+func vKey(v specVal) string {
+	if len(v.v) > 0 && v.v[0] != nil && v.v[0].K == KSym {
+		return v.v[0].Name
+	}
+	return ""
 }
